@@ -171,6 +171,37 @@ Proof.
   vm_compute. lia.
 Qed.
 
+(* ---- primitive-integer storage (Model/DurationW.v: the same statements over the width-checked Ratio<iN> of Model/Fixed.v;
+   DurPanic = an intermediate leaves the type's range).  For every width, base units and value: a strictly negative stored value is
+   the negative-duration error; an Ok result is the exact time in seconds truncated toward zero, below 2^64, with zero nanoseconds.
+   The property's "never panics" FAILS for integer storage, and the model says exactly where (known findings): with i32 and the
+   hour as base unit it panics for EVERY non-negative value, a theorem; with i64 and the hour it panics for 3*10^15 h although
+   that is 1.08*10^19 s < 2^64 s, a representable Duration. ---- *)
+From Coq Require Import QArith.
+From UomV Require Import Model.Fixed Model.DurationW Model.Exact Proofs.ExactP Proofs.FixedP Proofs.DurationWP.
+
+Theorem c14_integer_negative :
+  forall lo hi U dT ks kn v, (lo <= 0)%Z -> (0 <= hi)%Z -> wfs U -> (v < 0)%Z ->
+    time_to_duration_w lo hi U dT ks kn v = DurNegative.
+Proof. intros lo hi U dT ks kn v Hlo Hhi. exact (to_duration_w_negative lo hi Hlo Hhi U dT ks kn v). Qed.
+
+Theorem c14_integer_ok_is_exact :
+  forall lo hi U dT ks kn v s n, (lo <= 0)%Z -> (0 <= hi)%Z -> wfs U -> wf ks -> wf kn ->
+    time_to_duration_w lo hi U dT ks kn v = DurOk s n ->
+    (0 <= v)%Z /\ n = 0%Z
+    /\ s = q_to_integer (inject_Z v * pi (combine (map qv U) dT) / qv ks)%Q /\ (0 <= s < 2 ^ 64)%Z.
+Proof. intros lo hi U dT ks kn v s n Hlo Hhi. exact (to_duration_w_ok lo hi Hlo Hhi U dT ks kn v s n). Qed.
+
+Theorem c14_known_finding_i32_hour_base_always_panics :
+  forall v, (0 <= v)%Z -> time_to_duration_w i32_lo i32_hi hour_base dim_time (1, 1)%Z (1, 1000000000)%Z v = DurPanic.
+Proof. exact i32_hour_base_always_panics. Qed.
+
+Example c14_known_finding_i64_hours_witness :
+  time_to_duration_w (- 2 ^ 63) (2 ^ 63 - 1) hour_base dim_time (1, 1)%Z (1, 1000000000)%Z 3000000000000000 = DurPanic
+  /\ (3000000000000000 * 3600 < 2 ^ 64)%Z
+  /\ time_to_duration_w (- 2 ^ 63) (2 ^ 63 - 1) hour_base dim_time (1, 1)%Z (1, 1000000000)%Z 7 = DurOk 25200 0.
+Proof. split; [vm_compute; reflexivity|]. split; [vm_compute; reflexivity|vm_compute; reflexivity]. Qed.
+
 (* ---- the two conversions of src/si/time.rs that Model/Duration.v transcribes (Gen/BodySrc.v is regenerated on every run) ---- *)
 From Coq Require Import String.
 From UomV Require Import Gen.BodySrc Spec.BodyTie.
